@@ -43,7 +43,8 @@ def _run(module, cfg, workers, env, timeout, coverage, simulate, depth, seed,
          extra, jvm, deadlock, spec_dir):
     spec_dir = spec_dir or SPEC_DIR
     meta = tempfile.mkdtemp(prefix='verif-tlc-')
-    cmd = ['java', '-XX:+UseParallelGC', '-Xmx6g', '-Xss64m'] + list(jvm) + [
+    # (TLC leaves an empty tlc-<n> directory in java.io.tmpdir on every run)
+    cmd = ['java', '-XX:+UseParallelGC', '-Xmx6g', '-Xss64m', '-Djava.io.tmpdir=' + meta] + list(jvm) + [
         '-cp', JAR + ':' + DEPS, 'tlc2.TLC',
         '-metadir', meta, '-noGenerateSpecTE']
     if workers is None:
